@@ -214,7 +214,14 @@ func (g *gen) expression() string {
 
 func TestExpressions(t *testing.T) {
 	kit.Rec.Rule(rule)
-	rapid.Check(t, func(t *rapid.T) {
+	rapid.Check(t, propExpressions)
+}
+
+// FuzzExpressions drives the same property with coverage-guided native fuzzing (thorough tier).
+func FuzzExpressions(f *testing.F) { f.Fuzz(rapid.MakeFuzz(propExpressions)) }
+
+func propExpressions(t *rapid.T) {
+	{
 		c := genCfg(t)
 		g := &gen{t: t, c: c}
 		e := g.expression()
@@ -276,7 +283,7 @@ func TestExpressions(t *testing.T) {
 			t.Fatalf("C18: field holds %#v, direct evaluation of the substituted expression %q gives %#v\n%s", got, sub, want, desc)
 		}
 		kit.Rec.Case(desc, g.usesPh && sub != e, "result/"+typ.String())
-	})
+	}
 }
 
 func fmtAny(v any) string {
@@ -557,7 +564,6 @@ func TestValidateMulti(t *testing.T) {
 		kit.Rec.Case(desc, true, "multi-field")
 	})
 }
-
 
 // TestValidateUnboundPointer: an optional pointer field that stays nil is validated like any other value:
 // start-up fails exactly when nil violates the constraints (required, min, eq ...), not otherwise.
